@@ -1101,6 +1101,25 @@ def _expiry_pending(run, b, name, key):
     return [t for t, nk in _callbacks(run).items() if nk == (name, key) and b.thr.get(t, ("?",))[0] == "P"]
 
 
+def _readded_after_delete(run, sid, name, key):
+    """F-LEAK's signature read off the REAL session table (whatever the granularity of the steps): the session's entry was deleted
+    (present in an earlier block, absent in a later one) and the hold (name,key) was then written under that session id again."""
+    seen = gone = False
+    for b in run.blocks:
+        if sid in b.ses:
+            if gone and any(n == name and k == key for (n, k, _z) in b.ses[sid]):
+                return True
+            seen = True
+        elif seen:
+            gone = True
+    return False
+
+
+def _past(run, tid, label, k):
+    """goroutine tid has been released from yield point `label` by item k (real step log)"""
+    return any(t == tid and lab == label and k2 <= k for (k2, t, lab) in run.steps())
+
+
 def _owner_sid(run, name, key):
     for c in _acquirers(run).values():
         if c["name"] == name and c["key"] == key:
@@ -1227,7 +1246,7 @@ def oracle_C06(run, images=None):
                     continue
                 if _expiry_pending(run, b, c["name"], c["key"]):
                     continue
-                leak = any(t == c["tid"] and lab == "VSessAdd" and k > destroyed[0] for (k, t, lab) in steps)
+                leak = _readded_after_delete(run, sid, c["name"], c["key"])
                 text = ("session %r has ended (DestroySession finished at item %d, every call of the session has returned) and its acknowledged hold (%r,%r) "
                         "still occupies the lock" % (sid, k_end, c["name"], c["key"]))
                 if leak:
@@ -1309,8 +1328,12 @@ def oracle_C09(run, images=None):
                 zomb = [e for e in ents if not sb.in_table(n, e[1])]
                 expl = []
                 for e in zomb:
-                    who = [t for t, st in sb.thr.items() if st == ("P", "VSessRemove") and t in calls and calls[t]["op"] == "unl" and calls[t]["name"] == n and calls[t]["key"] == e[1]]
-                    who += [t for t, nk in cbs.items() if nk == (n, e[1]) and sb.thr.get(t) == ("P", "VCbSessRemove")]
+                    # a goroutine that has released the hold and is at, or inside, its RemoveLock: parked at the yield point in front of it, or
+                    # released from it and not yet returned (window runs park inside RemoveLock)
+                    who = [t for t, st in sb.thr.items() if t in calls and calls[t]["op"] == "unl" and calls[t]["name"] == n and calls[t]["key"] == e[1]
+                           and st[0] in ("P", "B") and (st == ("P", "VSessRemove") or _past(run, t, "VSessRemove", sb.k))]
+                    who += [t for t, nk in cbs.items() if nk == (n, e[1]) and sb.thr.get(t, ("?",))[0] == "P"
+                            and (sb.thr.get(t) == ("P", "VCbSessRemove") or _past(run, t, "VCbSessRemove", sb.k))]
                     if who:
                         expl.append((e, who))
                 text = "the state file a kill %s leaves lists %d holds of %r (size %d): %r" % (where, len(ents), n, size, ents)
@@ -1385,6 +1408,11 @@ def _replay_obj(prop, run, why, chk, extra=None):
            "items": [dec_item(it["raw"].split()) for _k, tag, it in run.items if tag == "I" and it["kind"] != "bad"], "why": why,
            "keys": run.keys, "sessions": run.sids, "observed": run.raw[:600], "model_vs_real": (chk or {}).get("diffs", [])[:10],
            "ghost": (chk or {}).get("ghost", [])[:80], "replay_cmd": "python3 -m lib.svtie --replay <this file> --prop %s" % prop}
+    if run.sid.startswith("w:"):
+        scen = run.sid[2:].split("~")[0]
+        obj["window_run"] = ("execution %s of the harness's own preemption-bounded search over the micro-steps of scenario %r (every inner yield point parks; "
+                             "harness/svsched/window.go); the items are the micro-steps it took, in order" % (run.sid[2:].split("~")[-1], scen))
+        obj["replay_cmd"] = "VERIF_SEED=<seed> python3 -m lib.svtie --prop %s --scenario %s   (the search is deterministic: the same execution number fails again)" % (prop, scen)
     if extra:
         obj.update(extra)
     return obj
